@@ -6,8 +6,15 @@ from ..areas import store as st
 from ..extract import store as xstore
 
 MUT = {"plain": ("put", "pin", "rem", "trim"), "io": ("add", "put", "pin", "pop", "rem", "trim"), "ioset": ("add", "put", "pin", "pop", "rem", "remv", "trim")}
-MUT["iox"], MUT["iosetx"] = MUT["io"], MUT["ioset"]
-BASE = {"iox": "io", "iosetx": "ioset"}
+
+
+def base_kind(kind):
+    return kind.split("@")[0]
+
+
+def is_custom(kind):
+    return "@" in kind
+
 
 
 def legal(kind, k):
@@ -28,7 +35,7 @@ def reference(kind, ops, keys):
     d = {}
     ANY = reference.ANY
     out = []
-    kind = BASE.get(kind, kind)
+    kind = base_kind(kind)
     for op in ops:
         name = op[0]
         k = op[1] if len(op) > 1 else None
@@ -117,6 +124,42 @@ def reference(kind, ops, keys):
 
 reference.ANY = object()
 
+SUBKIND = {"cans": "plain", "drqs": "io", "dsqs": "ioset"}
+
+
+def sub_plain_ops(ops):
+    """subery ops -> per store, the equivalent ops of the single-suber language with values as serialisations"""
+    tab = st.c23_table()
+    out = []
+    for o in ops:
+        store, name = o[0], o[1]
+        if name in ("add", "remv") or (store == "cans" and name in ("put", "pin")):
+            out.append((store, (name, o[2], tab[o[3]][1])))
+        elif name in ("put", "pin"):
+            out.append((store, (name, o[2], [tab[i][1] for i in o[3]])))
+        elif name == "cnt" and store == "cans":
+            out.append((store, ("cnt",)))
+        else:
+            out.append((store, (name, o[2])))
+    return out
+
+
+def sub_reference(ops, keys):
+    """three independent dictionaries: per op (expected result, expected get of every key in every store)"""
+    pops = sub_plain_ops(ops)
+    per = {}
+    for store in st.SUBSTORES:
+        mine = [o for s_, o in pops if s_ == store]
+        per[store] = iter(reference(SUBKIND[store], mine, keys))
+    cur = {"cans": tuple(None for _ in keys), "drqs": tuple(() for _ in keys), "dsqs": tuple(() for _ in keys)}
+    out = []
+    for store, o in pops:
+        exp, snap = next(per[store])
+        cur[store] = snap
+        out.append((exp, tuple(cur[s_] for s_ in st.SUBSTORES)))
+    return out
+
+
 
 class C24(core.Check):
     pid = "C24"
@@ -129,8 +172,9 @@ class C24(core.Check):
     level_note = ""
     quick_n = 500
     thorough_n = 9000
-    rule = ("keys and values are handed over in every accepted form (bytes / str / memoryview / tuple of parts), returned lists are mutated by the caller, writes with a non-bytes value at any "
-            "batch position are interleaved, kinds iox|iosetx use ionsep='|' (oracle only), a sentinel sub-db in the same environment must stay untouched; "
+    rule = ("kind subery runs histories over ONE Subery with its own subers cans/drqs/dsqs and the same keys in all of them (sub-database isolation clause); "
+            "keys and values are handed over in every accepted form (bytes / str / memoryview / tuple of parts), returned lists are mutated by the caller, writes with a non-bytes value at any "
+            "batch position are interleaved, kinds <class>@<n> use a custom sep / ionsep from st.SEPCFG (ASCII, non-ASCII 2-4 byte, multi-char, str and bytes; oracle only), a sentinel sub-db in the same environment must stay untouched; "
             "case = (kind in plain|io|ioset, op list <= 30 over an adversarial key set of <= 4 keys (prefixes of each other, keys ending in or containing '.', "
             "keys that look like a suffixed key k.<32 hex>, the empty key, neighbours '-' '/' '0' of the separator) and 8 values with duplicates and the empty value); "
             "plus getItemIter/getFullItemIter/trim with a top and cntAll; after every op get() of every key of the case is observed, at the end the raw sub-db. non-trivial = at least 2 keys and 3 mutating ops; distinct by request line")
@@ -160,7 +204,7 @@ class C24(core.Check):
             ("io", [("put", b"k", [b"a", b"b"]), ("badpin", b"k", [b"c", 7]), ("get", b"k")]),
             ("ioset", [("put", b"k", [b"a", b"b"]), ("badpin", b"k", [7]), ("get", b"k")]),
             # K4: custom ordinal separator, getFirst / getLast / pop
-            ("iox", [("add", b"k", b"a"), ("add", b"k", b"b"), ("first", b"k"), ("last", b"k"), ("pop", b"k"), ("get", b"k")]),
+            ("io@0", [("add", b"k", b"a"), ("add", b"k", b"b"), ("first", b"k"), ("last", b"k"), ("pop", b"k"), ("get", b"k")]),
         ]
 
     def corpus(self):
@@ -189,10 +233,14 @@ class C24(core.Check):
             ("io", [("put", b"k", [b"a", b"b"]), ("badadd", b"k"), ("badput", b"k", [7, b"c"]), ("badput", b"k", [b"c", 7]), ("badput", b"k", [b"c", 7, b"d"]),
                     ("get", b"k"), ("add", b"a.b", b"x"), ("add", b"a.b", b"y"), ("get", b"a.b"), ("iter", b"a.b"), ("cnt", b"a.b"), ("pop", b"a.b")]),
             ("plain", [("put", b"k", b"v"), ("badput", b"k"), ("badpin", b"k"), ("get", b"k"), ("badput", b"n"), ("get", b"n")]),
-            ("iosetx", [("put", b"k", [b"a", b"b", b"a"]), ("add", b"k." + st.hexw(0), b"w"), ("add", b"k", b"c"), ("get", b"k"), ("remv", b"k", b"a"),
+            ("ioset@0", [("put", b"k", [b"a", b"b", b"a"]), ("add", b"k." + st.hexw(0), b"w"), ("add", b"k", b"c"), ("get", b"k"), ("remv", b"k", b"a"),
                         ("cnt", b"k"), ("pin", b"k", [b"z"]), ("rem", b"k." + st.hexw(0)), ("items",)]),
             # 300 values at one key: the ordinal carries twice (0x100)
             ("io", [("put", k, [b"w%d" % (60 * i + j) for j in range(60)]) for i in range(5)] + [("cnt", k), ("last", k), ("pop", k), ("add", k, b"z"), ("last", k), ("cnt",)]),
+            # the library's own wiring: the same key in all three stores of one Subery - an op on one never shows in another
+            ("subery", [("drqs", "add", b"q", 0), ("drqs", "add", b"q", 1), ("dsqs", "add", b"q", 2), ("cans", "put", b"q", 3), ("dsqs", "get", b"q"), ("dsqs", "cnt", b"q"),
+                        ("dsqs", "pop", b"q"), ("drqs", "get", b"q"), ("drqs", "rem", b"q"), ("dsqs", "get", b"q"), ("cans", "get", b"q"), ("cans", "cnt"), ("dsqs", "add", b"q", 2),
+                        ("drqs", "pin", b"q", [4, 4]), ("dsqs", "remv", b"q", 4), ("drqs", "last", b"q"), ("cans", "rem", b"q"), ("drqs", "pop", b"q"), ("dsqs", "first", b"q")]),
             # outside the key space: error branches of the model (correspondence only)
             ("plain", [("put", b"", b"v"), ("get", b""), ("rem", b""), ("pin", b"x" * 512, b"v"), ("get", b"x" * 512), ("rem", b"x" * 512), ("put", b"x" * 511, b"v"), ("get", b"x" * 511)]),
             ("io", [("add", b"x" * 479, b"v"), ("add", b"x" * 478, b"v"), ("get", b"x" * 478), ("get", b"x" * 479), ("put", b"x" * 479, [b"a"]), ("pin", b"x" * 479, [b"a"])]),
@@ -250,16 +298,56 @@ class C24(core.Check):
         ops += [("get", keys[0]), ("last", keys[0]), ("cnt", keys[0]), ("pop", keys[0])]
         return (kind, ops)
 
+    def _subery(self, rng):
+        """the library's own wiring: one Subery, its three subers (cans plain, drqs list, dsqs set), the SAME keys in all of them"""
+        keys = rng.sample([b"q", b"r", b"a_b", b"q.x", b"dsqs.", b"k"], rng.choice([1, 2, 2, 3]))
+        dom = st.CLEAN[:rng.choice([2, 3, 5])] if rng.random() < 0.8 else st.MARKERS
+        ops = []
+        for _ in range(rng.choice([4, 8, 12, 20, 30])):
+            store = rng.choice(st.SUBSTORES)
+            k = rng.choice(keys)
+            v = rng.choice(dom)
+            if store == "cans":
+                name = rng.choice(["put", "put", "pin", "get", "rem", "cnt"])
+                ops.append((store, name, k, v) if name in ("put", "pin") else (store, name, k) if name != "cnt" else (store, name))
+            else:
+                names = ["add"] * 5 + ["put", "pin", "get", "first", "last", "pop", "pop", "rem", "cnt"] + (["remv", "remv"] if store == "dsqs" else [])
+                name = rng.choice(names)
+                if name in ("add", "remv"):
+                    ops.append((store, name, k, v))
+                elif name in ("put", "pin"):
+                    ops.append((store, name, k, [rng.choice(dom) for _ in range(rng.choice([0, 1, 2, 3]))]))
+                else:
+                    ops.append((store, name, k))
+        return ("subery", ops)
+
     def _custom_sep(self, rng):
-        """IoSuber / IoSetSuber built with ionsep='|': every method must hand the separator down.  getFirst / getLast / pop
-        are left out (known finding C24-K4: they do not); keys with '.' (now harmless) and without '|'."""
-        kind = rng.choice(["iox", "iosetx"])
-        keys = rng.sample([b"k", b"k.", b"k." + st.hexw(0), b"a.b", b"", b"k-", b"0"], rng.choice([1, 2, 3]))
+        """Suber / IoSuber / IoSetSuber built with a custom sep and/or ionsep (st.SEPCFG: ASCII, 2-, 3-, 4-byte UTF-8
+        characters, multi-character mixes, str and bytes): every method must hand the separators down and split stored keys
+        by BYTES.  Keys never contain the ordinal separator of their configuration; they may contain the part separator."""
+        n = rng.randrange(len(st.SEPCFG))
+        sep, ionsep = st.SEPCFG[n]
+        base = rng.choice(["io", "io", "ioset", "ioset", "plain"])
+        kind = f"{base}@{n}"
+        sp = (sep or ".").encode()
+        pool = [b"k", b"kk", b"k.", b"k." + st.hexw(0), b"a.b", b"k-", b"0", b"k" + sp + b"x", b"a" + sp + b"b" + sp + b"c", "k\u00e9".encode()]
+        if base != "plain":
+            pool.append(b"")
+            isb = ionsep if isinstance(ionsep, bytes) else (ionsep or ".").encode()
+            pool = [k for k in pool if isb not in k] or [b"k"]
+        else:
+            pool = [k for k in pool if k]
+        keys = rng.sample(pool, min(len(pool), rng.choice([1, 2, 3, 4])))
         vals = st.VALS24[:rng.choice([2, 3, 8])]
         ops = []
         for _ in range(rng.choice([3, 6, 10, 20])):
             k = rng.choice(keys)
-            names = ["add"] * 5 + ["put", "put", "pin", "get", "iter", "rem", "cnt", "items"] + (["remv", "remv"] if kind == "iosetx" else [])
+            if base == "plain":
+                name = rng.choice(["put", "put", "pin", "pin", "get", "rem", "cnt", "items", "itemstop"])
+                ops.append((name, k, rng.choice(vals)) if name in ("put", "pin") else (name, k) if name in ("get", "rem") else
+                           (name, rng.choice([b"", k[:1], k])) if name == "itemstop" else (name,))
+                continue
+            names = ["add"] * 5 + ["put", "put", "pin", "get", "iter", "first", "last", "pop", "pop", "rem", "cnt", "items"] + (["remv", "remv"] if base == "ioset" else [])
             name = rng.choice(names)
             if name in ("add", "remv"):
                 ops.append((name, k, rng.choice(vals)))
@@ -277,8 +365,11 @@ class C24(core.Check):
                 yield self._long(rng)
                 continue
             kind = rng.choice(["io", "io", "ioset", "ioset", "plain"])
-            if rng.random() < 0.08:
+            if rng.random() < 0.15:
                 yield self._custom_sep(rng)
+                continue
+            if rng.random() < 0.08:
+                yield self._subery(rng)
                 continue
             keys = [k for k in st.adversarial_keys(rng, rng.choice([1, 2, 3, 3, 4, 4])) if legal(kind, k)] or [b"k"]
             if rng.random() < 0.05:      # exactly at / one past the key size limit of the store (illegal ones: only "nothing else changes")
@@ -337,19 +428,36 @@ class C24(core.Check):
     # ---- both sides
     def request(self, case):
         kind, ops = case
+        if kind == "subery":
+            return ("subery", ("keys",) + st.c24sub_keys(ops), ("ops",) + tuple((s_,) + tuple(o) for s_, o in sub_plain_ops(ops)))
         rops = tuple(("badput", o[1]) if o[0] in ("badadd", "badput") else ("badpin", o[1]) if o[0] == "badpin" else tuple(o) for o in ops)
-        if kind in BASE:       # custom ordinal separator: not in the Lean model, these cases are carried by the oracle alone
-            return ("oracleonly", kind, ("ops",) + tuple(tuple(x if not isinstance(x, list) else tuple(x) for x in o) for o in ops))
+        if is_custom(kind):       # custom separators: not in the Lean model, these cases are carried by the oracle alone
+            return ("oracleonly", kind.replace("@", ":"), ("ops",) + tuple(tuple(x if not isinstance(x, list) else tuple(x) for x in o) for o in ops))
         return (kind, ("keys",) + st.c24_keys(ops), ("ops",) + rops)
 
     def compare_view(self, case, obs):
-        return "oracle-only" if case[0] in BASE else sx.dumps(obs)
+        return "oracle-only" if is_custom(case[0]) else sx.dumps(obs)
 
     def run_impl(self, case):
-        return st.c24_run(case)
+        return st.c24sub_run(case) if case[0] == "subery" else st.c24_run(case)
+
+    def oracle_subery(self, case, obs):
+        _, ops = case
+        keys = st.c24sub_keys(ops)
+        ANY = reference.ANY
+        bad = []
+        for (exp, snaps), (res, got), op in zip(sub_reference(ops, keys), obs[0], ops):
+            if exp is not ANY and res != exp:
+                bad.append(f"{op[0]}-{op[1]}-result-differs-from-dict")
+            for store, want, seen in zip(st.SUBSTORES, snaps, got):
+                if want != seen:
+                    bad.append("get-differs-from-dict" if store == op[0] else "other-suber-of-the-same-duror-changed")
+        return sorted(set(bad))
 
     def oracle(self, case, obs):
         kind, ops = case
+        if kind == "subery":
+            return self.oracle_subery(case, obs)
         keys = st.c24_keys(ops)
         steps, dump = obs
         ANY = reference.ANY
@@ -376,9 +484,10 @@ class C24(core.Check):
 
     def known(self, case, obs, clauses):
         kind, ops = case
-        if kind in BASE:
-            # K4: getFirst / getLast / pop do not pass the custom ordinal separator down
-            return "C24-K4" if any(o[0] in ("first", "last", "pop") for o in ops) else None
+        if kind == "subery":
+            return None
+        if is_custom(kind):
+            return None           # custom separators: nothing is known to be wrong (C24-K4 is repaired in the tree)
         if kind not in ("io", "ioset"):
             return None
         if any(o[0] == "badpin" for o in ops) and not xstore.PIN_ATOMIC.get("v", False):
@@ -400,10 +509,14 @@ class C24(core.Check):
 
     def nontrivial(self, case, obs):
         kind, ops = case
-        return len(st.c24_keys(ops)) >= 2 and sum(1 for o in ops if o[0] in MUT[kind]) >= 3
+        if kind == "subery":
+            return len({o[0] for o in ops}) >= 2 and len(ops) >= 4
+        return len(st.c24_keys(ops)) >= 2 and sum(1 for o in ops if o[0] in MUT[base_kind(kind)]) >= 3
 
     def features(self, case, obs):
         kind, ops = case
+        if kind == "subery":
+            return ["subery", f"subery:stores={len({o[0] for o in ops})}"] + sorted({f"subery:{o[0]}:{o[1]}" for o in ops})
         keys = st.c24_keys(ops)
         f = [kind, f"{kind}:ops~{(len(ops) + 4) // 5 * 5}", f"keys={len(keys)}"]
         f += sorted({f"{kind}:{o[0]}" for o in ops})
@@ -419,6 +532,10 @@ class C24(core.Check):
 
     def shrink(self, case):
         kind, ops = case
+        if kind == "subery":
+            for i in range(len(ops)):
+                yield (kind, ops[:i] + ops[i + 1:])
+            return
         keys = st.c24_keys(ops)
         simple = [b"a", b"b", b"c", b"d", b"e", b"f"]
         if len(keys) <= len(simple) and any(k not in simple for k in keys):
@@ -433,6 +550,8 @@ class C24(core.Check):
 
     def mutate(self, rng, case):
         kind, ops = case
+        if kind == "subery":
+            return list(self.shrink(case))[:40]
         out = list(self.shrink(case))[:40]
         keys = st.c24_keys(ops) or (b"k",)
         for _ in range(20):
@@ -455,6 +574,6 @@ C24.level_text = (
 C24.level_note = ("Trusted: Lean kernel + propext/Classical.choice/Quot.sound; the sorted-list model of lmdb; the translator; that the sampled correspondence is representative. "
                   "Decided OUTSIDE the quantifier: keys lmdb cannot store (empty, or longer than max_key_size 511; 478 for the io kinds) - the plain Suber maps lmdb's refusal to KeyError, the io kinds let the raw "
                   "lmdb.BadValsizeError through; no value is lost or confused, the dictionary model is claimed over lmdb-legal keys only (modelled, exercised by 2 corpus cases, no oracle clause). "
-                  "Custom ionsep is exercised by oracle-only cases (kinds iox/iosetx, not in the Lean model); getFirst/getLast/pop ignoring it is known finding C24-K4.")
+                  "Custom ionsep is exercised by oracle-only cases (kinds <class>@<n>: 14 sep/ionsep configurations incl. non-ASCII and multi-character separators, str and bytes, on all three classes; not in the Lean model); C24-K4 is repaired. Kind subery checks the library's own wiring (one Subery, cans/drqs/dsqs, same keys): three sub-db models composed in the driver + isolation clause.")
 
 CHECK = C24()
